@@ -84,6 +84,52 @@ def r2(ctx):
         yield PASS("C07-R2", "secret-flow/clean", "key-derived values reach only neutral propagators, trace formatting and ct_eq in %d function(s)" % len(res), sorted(res))
 
 
+KEY_EQ = r"^<signing_key::K\w+Key(<M>)? as std::cmp::PartialEq>::(eq|ne)$"
+
+
+@M.rule("C07-R2b", "crate-wide: wherever key material is handled, it reaches no branch, early-exit comparison or search")
+def r2b(ctx):
+    """R2 follows the signing key from validate_signature; this sweep starts from every place key material is *read* (raw
+    fields of the key types, AsRef on them, the secret given to from_str) in any function of the crate - a helper that
+    picks `the key the request was signed with` by `hex(hmac(key, ..)) == signature` runs an early-exit comparison against
+    the expected signature before the constant-time one, without validate_signature changing. The derived `==` of the key
+    types themselves is the one exception, and only as long as nothing in the crate calls it."""
+    st = SecretTaint(ctx.facts)
+    n = 0
+    bad = 0
+    for body in ctx.facts.all_bodies():
+        if body.kind not in ("Fn", "AssocFn", "Closure"):
+            continue
+        if re.search(KEY_EQ, body.path):
+            continue
+        tainted = st.taint(body)
+        for kind, bi, det in tainted_uses(body, tainted, raw_field_source):
+            n += 1
+            where = body.span_of_block(bi)
+            if kind in ("switch", "assert", "index"):
+                bad += 1
+                yield VIOL("C07-R2b", "%s/%s-on-secret" % (body.path, kind), "a %s depends on key material or on something computed from it" % {"switch": "branch condition", "assert": "run-time check", "index": "index"}[kind], where=where)
+            elif kind == "call":
+                t, idx = det
+                c = t.get("callee", "")
+                if neutral(c) or re.search(r"ops::Index(Mut)?::index(_mut)?$|slice::<impl \[T\]>::(split_at|split_at_mut|fill|first_chunk|last_chunk|as_ptr|as_mut_ptr)$|<impl \[T; N\]>::as_mut_slice$|Vec::<T, A>::extend_from_slice$|slice::<impl \[T\]>::concat$", c) or st.callee_body(t) is not None:
+                    # positional operations: which bytes go where does not depend on their values
+                    continue
+                if any(re.search(p_, c) for p_ in FMT_CALLS):
+                    continue  # what may be formatted where is C17's business
+                bad += 1
+                yield VIOL("C07-R2b", "%s/secret-into:%s" % (body.path, c.split("::")[-1]), "key-derived value passed to `%s` (comparisons, searches and parsers exit early)" % c, where=where)
+    ctx.count(max(1, n))
+    callers = [(cb, bi, t) for cb, bi, t in ctx.facts.callers_of(r"PartialEq::(eq|ne)$") if re.search(KEY_EQ, t.get("resolved_full", "") or "") or re.search(r"^<signing_key::K\w+Key(<\w+>)? as std::cmp::PartialEq>::(eq|ne)$", t.get("resolved_full", "") or "")]
+    for cb, bi, t in callers:
+        bad += 1
+        yield VIOL("C07-R2b", "%s/key-eq-called" % cb.path, "the early-exit `==` of a key type is called in crate code", where=cb.span_of_block(bi))
+    if n < 10:
+        yield MISSING("C07-R2b", "taint/floor", "only %d uses of key material found (>= 10 counted by hand)" % n)
+    elif not bad:
+        yield PASS("C07-R2b", "crate-wide/clean", "%d uses of key material in the crate: propagators, formatting, ct_eq only; the key types' derived `==` has no caller" % n, [])
+
+
 @M.rule("C07-R3", "nothing dependent on the presented signature's content guards the constant-time comparison")
 def r3(ctx):
     b = ctx.co(VS)
